@@ -135,6 +135,9 @@ pub struct Pre {
     pub stale_receiver: bool,
     pub rho: Option<RefMap>,
     pub extra: Option<PreExtra>,
+    /// models (indices) that the operation may touch; every other model must stay unchanged
+    pub touched: Vec<usize>,
+    pub live_before: Vec<Element>,
 }
 
 pub struct RefMap {
@@ -150,9 +153,9 @@ pub struct RefMap {
 }
 
 pub enum PreExtra {
-    Copy { src_dump: String, src_model: Option<usize>, src_full: Option<String>, src_version: AutosarVersion },
-    Sort { model: usize, before: Vec<(Element, Vec<String>, bool)> },
-    RemoveFile { model: usize, only_f: Vec<Element>, others_text: Vec<(String, String)>, removed_label: String },
+    Copy { src: Element, src_dump: String, src_version: AutosarVersion, dest_version: AutosarVersion, expected: Option<String> },
+    Sort { root: Element, canon: String },
+    RemoveFile { model: usize, file: ArxmlFile, only_f: Vec<Element>, others_text: Vec<(ArxmlFile, String)>, removed_label: String },
     Duplicate { texts: Vec<(String, String)> },
 }
 
@@ -208,86 +211,13 @@ fn pre_state(prop: &str, w: &World, op: &Op) -> Pre {
                 }
             }
         }
-        "C13" => match op {
-            Op::Copy { src, .. } | Op::CopyAt { src, .. } => {
-                let se = &w.elems[*src];
-                let st = Tree::of_element(se);
-                let src_model = w.home(se);
-                pre.extra = Some(PreExtra::Copy {
-                    src_dump: dump_tree(&st, &DumpOpts::default()),
-                    src_model,
-                    src_full: src_model.map(|m| dump_full(&w.models[m])),
-                    src_version: version_of(se),
-                });
-            }
-            Op::Duplicate { m } => {
-                let mut texts: Vec<(String, String)> = w.models[*m].files().filter_map(|f| f.serialize().ok().map(|t| (file_label(&f), t))).collect();
-                texts.sort();
-                pre.extra = Some(PreExtra::Duplicate { texts });
-            }
-            _ => {}
-        },
-        "C14" => {
-            let target = match op {
-                Op::Sort { e } => w.home(&w.elems[*e]).map(|m| (m, w.elems[*e].clone())),
-                Op::SortModel { m } => Some((*m, w.models[*m].root_element())),
-                _ => None,
-            };
-            if let Some((m, root)) = target {
-                let t = &w.trees[m];
-                if let Some(ni) = t.index.get(&root) {
-                    let opts = DumpOpts::default();
-                    let before = t
-                        .subtree(*ni)
-                        .into_iter()
-                        .map(|i| {
-                            let n = &t.nodes[i];
-                            let kids: Vec<String> = n.children.iter().map(|c| dump_subtree_canonical(t, *c, &opts)).collect();
-                            let et = n.elem.element_type();
-                            let fixed = et.is_ordered() || matches!(et.content_mode(), autosar_data_specification::ContentMode::Mixed | autosar_data_specification::ContentMode::Characters);
-                            (n.elem.clone(), kids, fixed)
-                        })
-                        .collect();
-                    pre.extra = Some(PreExtra::Sort { model: m, before });
-                }
-            }
-        }
-        "C10" => {
-            if let Op::RemoveFile { m, f } = op {
-                let model = &w.models[*m];
-                let file = &w.files[*f];
-                if model.files().any(|x| &x == file) && model.files().count() > 1 {
-                    let t = &w.trees[*m];
-                    let eff = effective_files(t, model);
-                    let label = file_label(file);
-                    let only_f: Vec<Element> = t
-                        .nodes
-                        .iter()
-                        .enumerate()
-                        .filter(|(i, n)| n.parent.is_some() && eff[*i].len() == 1 && eff[*i].contains(&label))
-                        .map(|(_, n)| n.elem.clone())
-                        .collect();
-                    let others_text = model.files().filter(|x| x != file).filter_map(|x| x.serialize().ok().map(|t| (file_label(&x), t))).collect();
-                    pre.extra = Some(PreExtra::RemoveFile {
-                        model: *m,
-                        only_f,
-                        others_text,
-                        removed_label: label,
-                    });
-                }
-            }
-        }
+        "C10" | "C13" | "C14" => crate::histprops2::pre_extra(prop, w, op, &mut pre),
         _ => {}
     }
     pre
 }
 
-/// canonical dump of a subtree where sortable children are listed in sorted order (multiset comparison at every level)
-fn dump_subtree_canonical(t: &Tree, i: usize, opts: &DumpOpts) -> String {
-    dump_subtree(t, i, opts)
-}
-
-fn first_diff(a: &str, b: &str) -> String {
+pub fn first_diff(a: &str, b: &str) -> String {
     for (n, (la, lb)) in a.lines().zip(b.lines()).enumerate() {
         if la != lb {
             return format!("first difference at line {}: before {la:?} / after {lb:?}", n + 1);
@@ -450,9 +380,16 @@ fn post_check(ctx: &mut StepCtx, w: &World, op: &Op, pre: &Pre, out: &Outcome) -
                 }
             }
         }
+        "C10" | "C13" | "C14" => viols.extend(crate::histprops2::post_extra(ctx, w, op, pre, out)),
         _ => {}
     }
     viols
+}
+
+static KNOWN: std::sync::OnceLock<Vec<crate::report::KnownFinding>> = std::sync::OnceLock::new();
+
+pub fn is_known(prop: &str, sig: &str) -> bool {
+    KNOWN.get_or_init(crate::report::load_known_findings).iter().any(|k| k.property == prop && k.sig == sig)
 }
 
 pub fn abnormal_violation(ab: &Abnormal, op: &Op) -> Viol {
@@ -490,6 +427,11 @@ pub fn initial_world(prop: &str, rng: Rng, case: u64) -> (World, Profile, usize)
     if prop == "C14" || prop == "C12" {
         // C14 judges sort results, C12 wants the panics: cyclic names are a known finding with its own witness
         w.masks.no_cyclic_names = true;
+    }
+    if prop == "C03" {
+        // tree shape does not depend on unique paths: explore unsorted, partial and failing merges as well
+        w.masks.no_unsorted_merge = false;
+        w.masks.no_failing_merge = false;
     }
     let nfiles = match prop {
         "C10" => r2.range(1, 4),
@@ -540,6 +482,9 @@ pub fn run_case(prop: &str, seed: u64, case: u64, len: usize, rep: &mut Report, 
     let mut state_hashes = Vec::new();
     if result.viols.is_empty() {
         for step in 0..(len + grow_steps) {
+            if verbose && std::env::var("VERIF_STOP_AT").ok().and_then(|s| s.parse::<usize>().ok()) == Some(step) {
+                break;
+            }
             // the generator itself calls public read-only API (list_valid_sub_elements, calc_element_insert_range, ...)
             let gen = crate::panicmon::catch(|| w.gen_op(if step < grow_steps { &grow_prof } else { &prof }));
             let op = match gen {
@@ -581,6 +526,8 @@ pub fn run_case(prop: &str, seed: u64, case: u64, len: usize, rep: &mut Report, 
             if prop == "C12" {
                 if out.err_variant() == Some("ParentElementLocked") {
                     let denied = crate::lockmon::take_self_denied();
+                    let pred = format!("{:?}:{}", op.kind(), denied.first().cloned().unwrap_or_else(|| "no-self-conflict-seen".into()));
+                    let known = is_known(prop, &format!("{prop}:single-thread/spurious-parent-locked:{pred}:after={:?}", op.kind()));
                     result.viols.push((
                         Viol {
                             rule: "single-thread/spurious-parent-locked".into(),
@@ -589,16 +536,23 @@ pub fn run_case(prop: &str, seed: u64, case: u64, len: usize, rep: &mut Report, 
                         },
                         format!("{:?}", op.kind()),
                     ));
-                    break;
+                    if !known || result.viols.len() > 20 {
+                        break;
+                    }
                 }
                 let _ = crate::lockmon::take_self_denied();
             }
             let viols = post_check(&mut ctx, &w, &op, &pre, &out);
             if !viols.is_empty() {
+                let after = format!("{:?}", op.kind());
+                let all_known = viols.iter().all(|v| is_known(prop, &format!("{prop}:{}:{}:after={after}", v.rule, v.pred)));
                 for v in viols {
-                    result.viols.push((v, format!("{:?}", op.kind())));
+                    result.viols.push((v, after.clone()));
                 }
-                break;
+                // the state after a known finding is still meaningful for most monitors: go on; otherwise stop here
+                if !all_known || result.viols.len() > 20 {
+                    break;
+                }
             }
             if step % 8 == 0 {
                 state_hashes.push(hash_str(&dump_tree(&w.trees[0], &DumpOpts::default())));
@@ -679,6 +633,11 @@ pub fn run(prop: &str, rep: &mut Report, tier: &str) {
         "C04" => rep.require("monitor.identifiables_inspected", 50_000),
         "C05" => rep.require("monitor.references_inspected", 20_000),
         "C06" => rep.require("monitor.references_inspected", 300),
+        "C10" => {
+            rep.require("monitor.stale_handles_probed_or_restricted_sets", 2000);
+            rep.require("monitor.references_inspected", 20);
+        }
+        "C13" | "C14" => rep.require("monitor.references_inspected", 300),
         "C11" => rep.require("failing_calls_checked", 3000),
         _ => {}
     }
